@@ -12,6 +12,10 @@ A family / call is plain JSON data (so that replays and the corpus are self-cont
   a parameter is [name, kind, default] or [name, kind, default, alias] (explicit alias=...)
   a layer may be a MultiContext / LinkedContext: "shape": "plain"|"multi"|"linked"|"linked-multi" and
   "members": [[fid, ...], ...] (which member context holds which overloads, in member order)
+  a kind may also be ["X", combinator class name, [member tags], nullable]: a smart-type COMBINATOR discovered in yaqltypes
+  (AnyOf, Chain, NotOfType, ...) over PythonType members; within one family equal kinds are ONE shared type instance
+  a fun may carry "payload_of": fid - it is another parameter specification of the SAME python callable as that overload
+  (fd.clone() + set_parameter(..., overwrite=True)), the way hosts specialise one implementation
   a fun may carry "decl": [name, ...] - the order in which its parameters are declared (= order of its parameter table)
   a fun may carry "history": [op, ...]: what else happened to the decorated python callable / to definitions
   derived from it through the public FunctionDefinition API before ("pre_*") and after ("post_*") the
@@ -195,8 +199,33 @@ def build_arg(a, log, table):
 
 
 # ---- functions ----------------------------------------------------------------------------
-def kind_type(kind):
+def combinators():
+    """the smart-type combinators yaqltypes offers (discovered, not listed): aggregations and NotOfType-like wrappers"""
+    out = []
+    for name, c in sorted(vars(yaqltypes).items()):
+        if isinstance(c, type) and issubclass(c, yaqltypes.SmartType) and not getattr(c, "__abstractmethods__", None):
+            if issubclass(c, yaqltypes.SmartTypeAggregation) or "smart_type" in getattr(c, "__slots__", ()):
+                out.append(name)
+    return out
+
+
+def make_combinator(name, tags, nullable):
+    cls = getattr(yaqltypes, name)
+    if issubclass(cls, yaqltypes.SmartTypeAggregation):
+        return cls(*[CLASSES[t] for t in tags], nullable=nullable)
+    return cls(CLASSES[tags[0]], nullable=nullable)
+
+
+def kind_type(kind, pool=None):
+    """pool: {kind: instance} - the type constants of one family, shared by every parameter that names the kind"""
+    if pool is not None and kind[0] in ("A", "X", "T"):
+        key = repr(kind)
+        if key not in pool:
+            pool[key] = kind_type(kind)
+        return pool[key]
     k = kind[0]
+    if k == "X":
+        return make_combinator(kind[1], kind[2], kind[3])
     if k == "T":
         return yaqltypes.PythonType(CLASSES[kind[1]], kind[2])
     if k == "L":
@@ -250,9 +279,8 @@ def _history_op(op, fn, fd, made):
         raise ValueError(op)
 
 
-def make_function(fun, census=None, history=True):
-    """exec() a python function with the requested signature; the payload returns what it received.
-    census: list collecting every FunctionDefinition that came into being (for the identity census)."""
+def make_callable(fun, pool=None):
+    """exec() a python function with the requested signature and decorate it; the payload returns what it received"""
     parts, names = [], []
     for name, kind, default in [q[:3] for q in fun["pos"]]:
         parts.append(name if default is None else "%s=%s" % (name, _default_src(default)))
@@ -274,16 +302,8 @@ def make_function(fun, census=None, history=True):
     env = dict(_glob)
     exec(src, env)
     fn = env["payload"]
-    decl = [(q[0], q[1], q[3] if len(q) > 3 else None) for q in fun["pos"] + fun["kwonly"]]
-    if fun["star"]:
-        decl.append((fun["star"][0], fun["star"][1], None))
-    if fun["starstar"]:
-        decl.append((fun["starstar"][0], fun["starstar"][1], None))
-    if fun.get("decl"):            # order in which the @specs.parameter decorators are applied = order of the parameter table
-        rank = {n: i for i, n in enumerate(fun["decl"])}
-        decl.sort(key=lambda d: rank.get(d[0], len(rank)))
-    for name, kind, alias in decl:
-        t = kind_type(kind)
+    for name, kind, alias in _declarations(fun):
+        t = kind_type(kind, pool)
         if t is not None or (alias and kind != ["H"]):
             specs.parameter(name, t, alias=alias)(fn)
     if fun["kind"] == "method":
@@ -292,6 +312,45 @@ def make_function(fun, census=None, history=True):
         specs.extension_method(fn)
     if fun["nokw"]:
         specs.no_kwargs(fn)
+    return fn
+
+
+def _declarations(fun):
+    decl = [(q[0], q[1], q[3] if len(q) > 3 else None) for q in fun["pos"] + fun["kwonly"]]
+    if fun["star"]:
+        decl.append((fun["star"][0], fun["star"][1], None))
+    if fun["starstar"]:
+        decl.append((fun["starstar"][0], fun["starstar"][1], None))
+    if fun.get("decl"):            # order in which the @specs.parameter decorators are applied = order of the parameter table
+        rank = {n: i for i, n in enumerate(fun["decl"])}
+        decl.sort(key=lambda d: rank.get(d[0], len(rank)))
+    return decl
+
+
+def respecify(fn, fun, pool=None):
+    """another parameter specification of the same python callable: clone + set_parameter(overwrite=True)"""
+    fd = _derive(fn, conventions.CamelCaseConvention()).clone()
+    for name, kind, alias in _declarations(fun):
+        if kind == ["H"]:
+            continue
+        fd.set_parameter(name, kind_type(kind, pool), alias=alias or camel(name), overwrite=True)
+    fd.is_function = fun["kind"] != "method"
+    fd.is_method = fun["kind"] != "function"
+    fd.no_kwargs = fun["nokw"]
+    return fd
+
+
+def make_function(fun, census=None, history=True, shared=None, pool=None):
+    """-> the FunctionDefinition of one overload.  census: list collecting every FunctionDefinition that came into
+    being (identity census); shared: {fid: python callable} of the family (for "payload_of"); pool: shared type instances"""
+    if fun.get("payload_of") is not None and shared is not None and fun["payload_of"] in shared:
+        fd = respecify(shared[fun["payload_of"]], fun, pool)
+        if census is not None:
+            census.append(fd)
+        return fd
+    fn = make_callable(fun, pool)
+    if shared is not None:
+        shared[fun["fid"]] = fn
     ops = fun.get("history", []) if history else []
     made = []
     for op in ops:
@@ -307,6 +366,22 @@ def make_function(fun, census=None, history=True):
         if hasattr(fn, "__yaql_function__"):
             census.append(fn.__yaql_function__)
     return fd
+
+
+def derive_all(family, census=None, history=True):
+    """{fid: FunctionDefinition} for the whole family (own callables first, then the re-specifications of them)"""
+    shared, pool, out = {}, {}, {}
+    funs = [f for l in family["chain"] for f in l["funs"]]
+    try:
+        for f in funs:
+            if f.get("payload_of") is None:
+                out[f["fid"]] = make_function(f, census, history, shared, pool)
+        for f in funs:
+            if f.get("payload_of") is not None:
+                out[f["fid"]] = make_function(f, census, history, shared, pool)
+    except (exceptions.InvalidMethodException, SyntaxError) as e:
+        raise BadFamily(repr(e))
+    return out
 
 
 SHARED_WHAT = ("a ParameterDefinition object is shared between two FunctionDefinitions derived from the same callable: a later "
@@ -406,17 +481,13 @@ def build_chain(family, census=None, history=True):
     ctx = OrderedContext(None)                 # outermost: what the text route needs (probe calls, the dot operator)
     ctx.register_function(_probe_function)
     ctx.register_function(system.op_dot)
+    made_all = derive_all(family, census, history)
     for layer in reversed(family["chain"]):
         shape = layer.get("shape", "plain")
         parent = ctx
         members = layer_members(layer)
         marked = any(f.get("xreg") for f in layer["funs"])
-        made = {}
-        for fun in layer["funs"]:                       # derived (and registered below) in the order of "funs"
-            try:
-                made[fun["fid"]] = make_function(fun, census, history)
-            except (exceptions.InvalidMethodException, SyntaxError) as e:
-                raise BadFamily(repr(e))
+        made = {fun["fid"]: made_all[fun["fid"]] for fun in layer["funs"]}
         mctx = []
         for i, mfuns in enumerate(members):
             if shape in ("linked", "linked-multi"):
@@ -447,7 +518,30 @@ def build_chain(family, census=None, history=True):
             inner = OrderedMulti([m for m, _ in mctx])
             inner.order = order
             ctx = contexts.LinkedContext(parent, inner)
+    _FID_OF.clear()
+    _FID_OF.update({id(fd): (fid, fd) for fid, fd in fds.items()})
     return ctx, fds
+
+
+# which definition ran: overloads may share one payload callable, so the payload's own tag cannot tell; the
+# delegate that is finally INVOKED belongs to the winner (class-level observation point, nothing in /repo changes)
+_FID_OF = {}
+_invoked = []
+_orig_get_delegate = specs.FunctionDefinition.get_delegate
+
+
+def _observing_get_delegate(self, *a, **k):
+    d = _orig_get_delegate(self, *a, **k)
+    if id(self) not in _FID_OF:
+        return d
+
+    def delegate():
+        _invoked.append(_FID_OF[id(self)][0])
+        return d()
+    return delegate
+
+
+specs.FunctionDefinition.get_delegate = _observing_get_delegate
 
 
 # ---- canonical observation ---------------------------------------------------------------
@@ -495,6 +589,8 @@ def bval_term(b):
 
 def canon_result(res, table):
     fid, pos, rest, kwonly, kw = res
+    if _invoked:
+        fid = _invoked[-1]
     posl = [canon_bound(o, table) for o in tuple(pos) + tuple(rest)]
     kwl = sorted([[k, canon_bound(o, table)] for k, o in kwonly] + [[k, canon_bound(o, table)] for k, o in kw.items()])
     return ["chosen", fid, posl, kwl]
@@ -509,6 +605,7 @@ def run_call(family, call, ctx=None):
     kwargs = {k: py_value(v) for k, v in call["kwargs"]}
     has_recv = call["recv"] is not None
     receiver = py_value(call["recv"]) if has_recv else utils.NO_VALUE
+    del _invoked[:]
     try:
         res = ctx("f", engine(), receiver)(*args, **kwargs)
         obs = canon_result(res, table)
@@ -581,6 +678,7 @@ def run_call_text(family, call, ctx, text):
     if has_recv:
         values[0] = py_value(call["recv"])
     _probe["log"], _probe["table"] = log, values
+    del _invoked[:]
     try:
         res = node(utils.NO_VALUE, ctx, engine())
         obs = canon_result(res, table)
@@ -628,7 +726,33 @@ def kind_term(vt):
         return "(KTyped %d %s)" % (CLASSES.index(vt.python_type), gal.boolean(vt.nullable))
     if isinstance(vt, yaqltypes.AnyOf):
         return "(KAnyOf %s %s)" % (gal.natlist(CLASSES.index(t.python_type) for t in vt.types), gal.boolean(vt.nullable))
+    if isinstance(vt, yaqltypes.SmartType):
+        return probed_term(vt)
     raise ValueError(vt)
+
+
+def probed_term(vt):
+    """any other eager smart-type (Chain, NotOfType, ...): described by what its check() answers to the lattice's values"""
+    def ok(v):
+        try:
+            return bool(vt.check(v, None, engine()))
+        except Exception:
+            return False
+    reps = [(0, 7)] + [(c, INST[c]) for c in range(1, NCLS)]
+    accr = [c for c, o in reps if ok(o)]
+    accc = [c for c, o in reps if ok(expressions.Constant(o))]
+    mapping = expressions.MappingRuleExpression(expressions.KeywordConstant("k"), expressions.Constant(1))
+    unwrap = True
+    for c, o in reps:
+        if c in accc:
+            try:
+                unwrap = not isinstance(vt.convert(expressions.Constant(o), utils.NO_VALUE, None, None, engine()), expressions.Expression)
+            except Exception:
+                pass
+            break
+    return "(KProbed false %s %s %s %s %s %s %s None %s)" % (
+        gal.natlist(accr), gal.natlist(accc), gal.boolean(ok(None)), gal.boolean(ok(expressions.Constant(None))),
+        gal.boolean(ok(utils.NO_VALUE)), gal.boolean(ok(Probe(0, None, []))), gal.boolean(ok(mapping)), gal.boolean(unwrap))
 
 
 def param_term(key, p):
@@ -693,8 +817,10 @@ def gen_kind(rng, lazy_bias=0.0):
         return rng.choice([["L"], ["L"], ["E"], ["M"]])
     if r > 0.97:
         return ["C"]
-    if r > 0.9:
+    if r > 0.93:
         return ["A", rng.sample(range(0, NCLS), rng.choice([1, 2, 2, 3])), rng.random() < 0.3]
+    if r > 0.88:
+        return gen_combinator(rng)
     if r < lazy_bias + 0.12:
         return ["U"]
     if r < lazy_bias + 0.2:
@@ -704,8 +830,24 @@ def gen_kind(rng, lazy_bias=0.0):
     return ["T", rng.choice(RELATED), rng.random() < 0.3]
 
 
+COMBINATOR_POOL = [[2, 6], [3, 6], [2, 3], [7, 3], [6, 1], [0], [2], [5, 6]]
+
+
+def gen_combinator(rng):
+    """a combinator kind from a SMALL pool, so that equal kinds - hence shared instances - recur within a family"""
+    name = rng.choice([n for n in combinators() if n in ("AnyOf", "Chain", "NotOfType")] or ["AnyOf"])
+    tags = rng.choice(COMBINATOR_POOL)
+    if name == "NotOfType":
+        tags = [rng.choice([6, 3, 2])]
+    if name == "Chain":
+        tags = rng.choice([[2, 3], [1, 7], [2], [0, 3]])
+    return ["X", name, list(tags), False]
+
+
 def gen_default(rng, kind):
     r = rng.random()
+    if kind[0] == "X":
+        return "null" if r < 0.5 else ["obj", rng.choice(range(1, NCLS))]
     if kind[0] in ("C", "M"):
         return ["obj", rng.choice(range(1, NCLS))]        # never acceptable, never None (Constant.convert(None) is not modelled)
     if kind[0] == "T" and r < 0.5:
@@ -766,6 +908,33 @@ def gen_fun(rng, fid, shape):
     return fun
 
 
+def add_variants(rng, chain, next_fid, p=0.3, pool_kind=None):
+    """some layers get further parameter specifications of an existing overload's python callable ("payload_of"):
+    same python signature, other parameter types"""
+    for layer in chain:
+        if not layer["funs"] or rng.random() >= p:
+            continue
+        for _ in range(rng.choice([1, 1, 2])):
+            base = rng.choice([f for f in layer["funs"] if f.get("payload_of") is None])
+            v = {"fid": next_fid, "pos": [list(q[:3]) for q in base["pos"]], "star": base["star"] and list(base["star"]),
+                 "kwonly": [list(q[:3]) for q in base["kwonly"]], "starstar": base["starstar"] and list(base["starstar"]),
+                 "kind": base["kind"], "nokw": base["nokw"], "payload_of": base["fid"]}
+            next_fid += 1
+            first = True
+            for q in v["pos"] + v["kwonly"]:
+                if q[1] == ["H"]:
+                    continue
+                if q[1][0] not in ("L", "E", "M", "C"):
+                    q[1] = pool_kind(rng) if pool_kind else gen_kind(rng)
+                    if first and v["kind"] != "function" and q[1][0] in ("L", "E", "M"):
+                        q[1] = ["T", rng.choice(RELATED), False]
+                first = False
+            if "xreg" in base:
+                v["xreg"] = rng.random() < 0.5
+            layer["funs"].insert(rng.randrange(len(layer["funs"]) + 1), v)
+    return next_fid
+
+
 def add_shapes(rng, chain, p_multi=0.3, p_hist=0.25):
     """some layers become MultiContexts / LinkedContexts over member contexts; some overloads get a
     registration history (the same callable derived under another convention, derived definitions modified)"""
@@ -816,6 +985,7 @@ def gen_family(rng):
             fid += 1
         chain.append({"excl": rng.random() < 0.2, "funs": funs})
     mark_exclusive(rng, chain)
+    add_variants(rng, chain, fid)
     add_shapes(rng, chain)
     fam = {"chain": chain}
     fam["shape_lazy"] = sorted(shape["lazy"])
@@ -951,6 +1121,10 @@ def family_features(family, call, obs):
         feats.add("multi/linked")
     if any(f.get("history") for f in funs):
         feats.add("history")
+    if any(f.get("payload_of") is not None for f in funs):
+        feats.add("shared-payload")
+    if any(p[1][0] in ("A", "X") for f in funs for p in f["pos"]):
+        feats.add("combinator")
     if call["recv"] is not None:
         feats.add("receiver")
     if any(a[0] == "skip" for a in call["args"]):
@@ -995,6 +1169,8 @@ class SParam:
             return a[0] == "const"
         if k == "M":
             return a[0] in ("mapc", "mape")
+        if k == "X":
+            return self._combinator_accepts(a)
         if k == "A":
             if a[0] in ("expr", "mapc", "mape"):
                 return bool(self.kind[1])
@@ -1013,6 +1189,26 @@ class SParam:
             return self.kind[1] == 0
         return issubclass(CLASSES[v[1]], CLASSES[self.kind[1]])
 
+    def _combinator_accepts(self, a):
+        """AnyOf: some member accepts; Chain: every member accepts; NotOfType-like: the member does not"""
+        name, tags, nullable = self.kind[1], self.kind[2], self.kind[3]
+        if a[0] in ("expr", "mapc", "mape"):
+            return bool(tags) or name != "AnyOf"
+        v = "marker" if a[0] == "skip" else a[1]
+        if v == "null":
+            return nullable
+        def inst(t):
+            if v == "marker" or v[0] == "int":
+                return t == 0
+            return issubclass(CLASSES[v[1]], CLASSES[t])
+        if name == "AnyOf":
+            return any(inst(t) for t in tags)
+        if name == "Chain":
+            return all(inst(t) for t in tags)
+        if name == "NotOfType":
+            return not inst(tags[0])
+        raise ValueError(name)
+
     def deliver(self, a):
         k = self.kind[0]
         if k == "H":
@@ -1023,6 +1219,8 @@ class SParam:
             return ["exprobj", a]
         if k == "M":
             return ["val", ["int", MAPRULE_CODE]]
+        if k == "X" and self.kind[1] == "NotOfType" and a[0] == "const":
+            return ["exprobj", a]          # NotOfType inherits SmartType.convert: a constant expression is handed over as it is
         if a[0] in ("const", "raw"):
             return ["val", a[1]]
         if a[0] == "skip":
@@ -1220,8 +1418,10 @@ def gen_family_dense(rng):
             for n in VIS_NAMES[:nvis]:
                 if unrelated:
                     r = rng.random()
-                    if r < 0.3:
-                        kind = ["A", rng.choice([[2, 3], [7, 3], [0], [2, 6]]), rng.random() < 0.2]
+                    if r < 0.12:
+                        kind = gen_combinator(rng)
+                    elif r < 0.3:
+                        kind = ["A", rng.choice([[2, 3], [7, 3], [0], [2, 6], [6, 2], [3, 6]]), False]
                     else:
                         kind = ["T", rng.choice([0, 0, 2, 3, 7, 7, 8]), rng.random() < 0.2]
                 else:
@@ -1239,6 +1439,17 @@ def gen_family_dense(rng):
             fid += 1
         chain.append({"excl": rng.random() < (0.3 if li < nlayers - 1 else 0.1), "funs": funs})
     mark_exclusive(rng, chain)
+
+    def dense_kind(r):
+        x = r.random()
+        if not unrelated:
+            return ["T", r.choice([0, 1, 2, 2, 3, 3, 4, 4, 5]), r.random() < 0.2]
+        if x < 0.12:
+            return gen_combinator(r)
+        if x < 0.3:
+            return ["A", r.choice([[2, 3], [7, 3], [0], [2, 6], [6, 2], [3, 6]]), False]
+        return ["T", r.choice([0, 0, 2, 3, 7, 7, 8]), r.random() < 0.2]
+    add_variants(rng, chain, fid, p=0.35, pool_kind=dense_kind)
     add_shapes(rng, chain, p_multi=0.4, p_hist=0.2)
     return {"chain": chain, "kwname": kwname}
 
@@ -1353,7 +1564,7 @@ def correspond(run, pairs, what_violation, what_prop, judge=None):
             ctx, fds = build_chain(family, census)
             if any(f.get("history") for l in family["chain"] for f in l["funs"]):
                 # the model is fed with what the definitions are on their own (no history)
-                fds = {f["fid"]: make_function(f, history=False) for l in family["chain"] for f in l["funs"]}
+                fds = derive_all(family, None, False)
         except BadFamily:
             run.cov["skipped"] += 1
             continue
